@@ -229,6 +229,8 @@ func runC18(w *W) {
 	type skipCase struct {
 		kind byte
 		b    []byte
+		// the value is a MAP whose declared count has the sign bit set (precondition of the known finding F61)
+		mapCountSign bool
 	}
 	var skips []skipCase
 	for _, d := range docs {
@@ -240,8 +242,39 @@ func runC18(w *W) {
 			if len(b) > 0 && t.Chance(2, 3, "skip.sub.cut") {
 				b = b[:t.Intn(len(b), "skip.sub.cut.at")]
 			}
-			skips = append(skips, skipCase{sv.T.Kind, b})
+			skips = append(skips, skipCase{sv.T.Kind, b, false})
 		}
+	}
+	// containers whose declared count was replaced by a boundary value (a stored-byte fault): both skippers
+	// have to consume the same number of bytes or both fail, also where count x element size wraps 32 bits
+	for _, d := range docs {
+		var subs, conts []*TVal
+		collectVals(d.val, &subs)
+		for _, sv := range subs {
+			if sv.T.Kind == tMAP || sv.T.Kind == tLIST || sv.T.Kind == tSET {
+				conts = append(conts, sv)
+			}
+		}
+		if len(conts) == 0 || !t.Chance(1, 2, "skip.count.use") {
+			continue
+		}
+		sv := conts[t.Intn(len(conts), "skip.count.sub")]
+		b := encodeThrift(nil, sv)
+		at := 1
+		if sv.T.Kind == tMAP {
+			at = 2
+		}
+		if len(b) < at+4 {
+			continue
+		}
+		counts := []uint32{0x7fffffff, 0x80000000, 0xffffffff, 0x40000000, 0x20000000, 0x10000000, 0x10000001, 0x08000000, 0x55555556, 0x1999999a, 0x00010000}
+		c := counts[t.Intn(len(counts), "skip.count.val")]
+		if t.Chance(1, 4, "skip.count.near") {
+			c += uint32(t.Intn(5, "skip.count.delta")) - 2
+		}
+		b[at], b[at+1], b[at+2], b[at+3] = byte(c>>24), byte(c>>16), byte(c>>8), byte(c)
+		skips = append(skips, skipCase{sv.T.Kind, b, sv.T.Kind == tMAP && c >= 0x80000000})
+		w.Count("skip_count_damaged_container")
 	}
 	for _, c := range caps {
 		w.Sig(fmt.Sprintf("cap%d", c))
@@ -280,7 +313,7 @@ func runC18(w *W) {
 		if len(b) > 0 && t.Chance(1, 3, "skip.ckey.cut") {
 			b = b[:t.Intn(len(b), "skip.ckey.cut.at")]
 		}
-		skips = append(skips, skipCase{tMAP, b})
+		skips = append(skips, skipCase{tMAP, b, false})
 	}
 	skipCuts := make([]int, len(docs))
 	for i, d := range docs {
@@ -447,7 +480,7 @@ func runC18(w *W) {
 			pn := thrift.BinaryProtocol{Buf: in.B}
 			en := pn.SkipNative(thrift.Type(sc.kind), thrift.MaxSkipDepth)
 			if (eg != nil) != (en != nil) || (eg == nil && pg.Read != pn.Read) || pn.Read > len(sc.b) {
-				w.Failf("skip-disagree", map[string]string{"flavour": name}, "SkipGo (err=%v, read=%d) and SkipNative/%s (err=%v, read=%d) disagree on a value of type %d: %x", eg, pg.Read, name, en, pn.Read, sc.kind, clipb(sc.b, 200))
+				w.Failf("skip-disagree", map[string]string{"flavour": name, "map_count_sign_bit": fmt.Sprint(sc.mapCountSign)}, "SkipGo (err=%v, read=%d) and SkipNative/%s (err=%v, read=%d) disagree on a value of type %d: %x", eg, pg.Read, name, en, pn.Read, sc.kind, clipb(sc.b, 200))
 			}
 			w.Count("skip_subvalue_agreement")
 		}
